@@ -426,7 +426,14 @@ where
         value: impl Borrow<Self::Input>,
     ) -> (usize, Self::Output) {
         let value = *value.borrow();
-        let zeros_to_skip = value >> self.l;
+        // Values beyond the upper bound have the last element as predecessor:
+        // their high bits would exceed the number of zeros in the high-bits
+        // vector, so we start from its last zero and accept any lower bits.
+        let (zeros_to_skip, lower_limit) = if value > self.u {
+            (self.u >> self.l, usize::MAX)
+        } else {
+            (value >> self.l, value & ((1 << self.l) - 1))
+        };
         let mut bit_pos = self.high_bits.select_zero_unchecked(zeros_to_skip) - 1;
 
         let mut rank = bit_pos - zeros_to_skip;
@@ -460,11 +467,11 @@ where
             }
 
             if STRICT {
-                if lower_bits < value & ((1 << self.l) - 1) {
+                if lower_bits < lower_limit {
                     return (rank, ((bit_pos - rank) << self.l) | lower_bits);
                 }
             } else {
-                if lower_bits <= value & ((1 << self.l) - 1) {
+                if lower_bits <= lower_limit {
                     return (rank, ((bit_pos - rank) << self.l) | lower_bits);
                 }
             }
